@@ -56,6 +56,35 @@ CHECKS["C04"] = dict(
     technique="TLA+ spec (Values.tla) model-checked with TLC; TLC-enumerated cases replayed on real Command/ArgMatches; recorded cases validated by a TLA+ trace spec",
 )
 
+_PARSER_TECH = "TLA+ spec of the parser (ClapDef/Parser/Props.tla) model-checked with TLC over definition families x all argv; every TLC state replayed on the real clap; observations judged by a TLA+ trace spec (Trace_Parse.tla)"
+_PARSER_COMMON = ("Parser.tla transcribes parser.rs / arg_matcher.rs / validator.rs / the parse entry of command.rs branch by branch (one Step per argv "
+                  "token, react, pending values, flag-subcommand resume, env/default phases, validator, global propagation), with every unwrap/"
+                  "expect/unreachable/debug_assert on the path an explicit panic-site outcome; TLC explores every argv up to the bound over each "
+                  "definition's alphabet for five definition families (also with ignore_errors) and checks the declarative predicate as an invariant "
+                  "on the model; every state is replayed on the real parser (zero divergences on the unchanged tree), divergent observations and "
+                  "spec-level counterexamples are judged by Trace_Parse.tla on the implementation's own observation, and random long argv recorded "
+                  "from the real parser are validated the same way. ")
+_PARSER = {
+ "C01": ("Decides: no panic site reachable, every parse returns matches or a renderable structured error, ignore_errors yields matches except for help/version.", "§4.C01",
+         "Memory safety, stack exhaustion and user closures are outside the technique; termination is by construction of the fold over argv (no hang observed under the 30 s watchdog)."),
+ "C02": ("Decides: command-line values, occurrence grouping and indices equal the specification's attribution (the documented grammar), indices distinct, no value invented, unattributable lines not accepted.", "§4.C02",
+         "The specification's ledger is taken as the documented grammar."),
+ "C03": ("Decides: on success the explicitly present set satisfies conflicts, exclusivity, non-multiple groups and every static/conditional requirement unless excused, stated from the definition only.", "§4.C03",
+         "Relations outside the vocabulary (custom validators) not covered."),
+ "C05": ("Decides: after the escape consumed by the grammar, the tail reaches the positionals verbatim and in order and nothing after it is a subcommand; a declared value terminator remains a sentinel.", "§4.C05",
+         "The 'options keep their values' clause is decided through the attribution equality of C02."),
+ "C06": ("Decides: every non-command-line value is the environment value if set, else the first applicable conditional default, else the plain default, else absent, with the matching reported source.", "§4.C06",
+         "Globals copied between levels are judged by C09."),
+ "C07": ("Decides: the stored occurrences equal a declarative fold of the command-line occurrence ledger by action (last-wins / append with boundaries / saturating count / flag values) with override removal in both directions.", "§4.C07",
+         "Count saturation is reached by the dedicated chain run in the thorough tier."),
+ "C09": ("Decides: the reported subcommand chain equals the grammar's, globals agree at every level at or below their definition, an explicit occurrence beats a default.", "§4.C09",
+         "Flag-subcommand aliases are outside the vocabulary."),
+ "C10": ("Decides: stream/exit contract as a total function of the kind; an input the grammar accepts is not rejected; the kind is the one the grammar assigns (either of UnknownArgument/InvalidSubcommand where only the similarity threshold decides); MissingRequired/ArgumentConflict are justified by a really unmet requirement / really present conflict.", "§4.C10",
+         "Suggestion contents are not judged yet."),
+}
+for _p, (_t, _r, _n) in _PARSER.items():
+    CHECKS[_p] = dict(text=_PARSER_COMMON + _t, ref=_r, note=_n, technique=_PARSER_TECH)
+
 NOT_YET = "check not built yet in this round (specification module planned in DESIGN.md §4/§5); not claimed until its check exists"
 
 
